@@ -4,6 +4,9 @@
 -/
 import LibfiberVerif.Model.Rt
 
+set_option linter.unusedVariables false
+set_option linter.unusedSimpArgs false
+
 namespace LibfiberVerif.Rt
 
 /-! ### small vocabulary -/
@@ -97,7 +100,10 @@ macro "destruct_inv " h:ident : tactic => `(tactic|
     winU, winM, pubS, nodup, bagbag, baghand, handhand, untr, cnone, cdead⟩ := $h)
 
 macro "inv_auto" : tactic => `(tactic|
-  (constructor <;> simp only [Q] at * <;> grind [upd, Ctx.isRunning, TPc.fib]))
+  (constructor <;> first
+    | assumption
+    | (simp only [Q, RUNNING, READY, WAITING, DONE, SAVING] at * <;>
+       grind [upd, Ctx.isRunning, TPc.fib])))
 
 theorem inv_create {s s' : St} {k g : Nat} (hI : Inv s)
     (h : core s (.create k g) = some s') : Inv s' := by
@@ -107,4 +113,1201 @@ theorem inv_create {s s' : St} {k g : Nat} (hI : Inv s)
   destruct_inv hI
   inv_auto
 
+theorem inv_push_requeue {s : St} {k q g : Nat} (hI : Inv s) (hq : q < 32)
+    (hpc : (s.tpc k).fib = some g) (hnb : ∀ q, g ∉ s.bag q) :
+    Inv { s with bag := upd s.bag q (g :: s.bag q), tpc := upd s.tpc k .run } := by
+  destruct_inv hI
+  inv_auto
+
+theorem inv_push_fresh {s : St} {q g : Nat} (hI : Inv s) (hq : q < 32)
+    (hnb : ∀ q, g ∉ s.bag q) (hnh : ∀ k, (s.tpc k).fib ≠ some g) (htr : s.tracked g = true)
+    (hc : s.ctx g = .fresh) (hf : s.fst g = READY) :
+    Inv { s with bag := upd s.bag q (g :: s.bag q) } := by
+  destruct_inv hI
+  inv_auto
+
+theorem inv_push_old {s : St} {k q : Nat} (hI : Inv s) (hq : q < 32)
+    (hnb : ∀ q, s.old k ∉ s.bag q) (hnh : ∀ k', (s.tpc k').fib ≠ some (s.old k))
+    (htr : s.tracked (s.old k) = true)
+    (hc : s.ctx (s.old k) = .saved) (hf : s.fst (s.old k) = READY) (hm : s.mst k = .push) :
+    Inv { s with bag := upd s.bag q (s.old k :: s.bag q), mst := upd s.mst k .idle } := by
+  destruct_inv hI
+  inv_auto
+
+theorem inv_push_pub {s : St} {q g : Nat} (hI : Inv s) (hq : q < 32)
+    (hnb : ∀ q, g ∉ s.bag q) (hnh : ∀ k, (s.tpc k).fib ≠ some g) (htr : s.tracked g = true)
+    (hp : s.pub g = true) (hf : s.fst g = READY ∨ s.fst g = SAVING ∨ s.fst g = WAITING) :
+    Inv { s with bag := upd s.bag q (g :: s.bag q), pub := upd s.pub g false } := by
+  destruct_inv hI
+  inv_auto
+theorem inv_rqpush {s s' : St} {k q g : Nat} {fn : Fn} (hI : Inv s) (hq : q < 32)
+    (h : core s (.rqpush k q g fn) = some s') : Inv s' := by
+  simp only [core] at h
+  split at h
+  · simp at h
+  next hg =>
+    simp only [not_or] at hg
+    obtain ⟨-, hbag, htr⟩ := hg
+    have hnb : ∀ q, g ∉ s.bag q := by
+      intro q' hq'
+      rw [inSomeBag_iff] at hbag
+      by_cases h32 : q' < 32
+      · exact hbag ⟨q', h32, hq'⟩
+      · have := hI.rngQ q' (by omega); simp [this] at hq'
+    simp at htr
+    clear hbag
+    split at h
+    next h' hpc =>
+      split at h <;> simp at h
+      subst h; subst h'
+      exact inv_push_requeue hI hq (by simp [hpc, TPc.fib]) hnb
+    next h' hpc =>
+      split at h <;> simp at h
+      subst h; subst h'
+      exact inv_push_requeue hI hq (by simp [hpc, TPc.fib]) hnb
+    next hpc =>
+      split at h
+      · simp at h
+      next hh =>
+        have hnh : ∀ k, (s.tpc k).fib ≠ some g := by
+          intro k' hk'
+          rw [heldBy_iff] at hh
+          by_cases h16 : k' < 16
+          · exact hh ⟨k', h16, hk'⟩
+          · have := hI.rngT k' (by omega); simp [this, TPc.fib] at hk'
+        clear hh
+        split at h
+        next hc =>
+          simp at h; subst h
+          exact inv_push_fresh hI hq hnb hnh htr hc.1 hc.2
+        next =>
+          split at h
+          next hc =>
+            simp at h; subst h
+            obtain ⟨hgo, hf, hc, hp, hm⟩ := hc
+            subst hgo
+            exact inv_push_old hI hq hnb hnh htr hc hf hm
+          next =>
+            split at h
+            next hc =>
+              simp at h; subst h
+              exact inv_push_pub hI hq hnb hnh htr hc.1 hc.2
+            · simp at h
+    · simp at h
+theorem inv_take {s : St} {k q g : Nat} {p : TPc} (hI : Inv s) (hk : k < 16)
+    (hpc : s.tpc k = .run) (hg : g ∈ s.bag q) (hp : p = .held g ∨ p = .stolen g) :
+    Inv { s with bag := upd s.bag q ((s.bag q).erase g), tpc := upd s.tpc k p } := by
+  have hnd := hI.nodup q
+  have hne : g ∉ (s.bag q).erase g := by
+    intro hm; exact (List.Nodup.mem_erase_iff hnd).mp hm |>.1 rfl
+  have hsub : ∀ x, x ∈ (s.bag q).erase g → x ∈ s.bag q := fun x hx => List.mem_of_mem_erase hx
+  have hnd' : ((s.bag q).erase g).Nodup := hnd.erase g
+  have hfib : p.fib = some g := by rcases hp with hp | hp <;> simp [hp, TPc.fib]
+  have hnc : ∀ x, p ≠ .checked x := by rcases hp with hp | hp <;> simp [hp]
+  have hna : ∀ x, p ≠ .armed x := by rcases hp with hp | hp <;> simp [hp]
+  have hnr : p ≠ .run := by rcases hp with hp | hp <;> simp [hp]
+  clear hp
+  generalize (s.bag q).erase g = l at hne hsub hnd' ⊢
+  destruct_inv hI
+  inv_auto
+
+theorem inv_rqpop {s s' : St} {k q : Nat} {r : Option Nat} (hI : Inv s) (hk : k < 16)
+    (h : core s (.rqpop k q r) = some s') : Inv s' := by
+  simp only [core] at h
+  split at h
+  · simp at h
+  next hg =>
+    simp only [not_or, Decidable.not_not] at hg
+    split at h
+    · simp at h; subst h; exact hI
+    · split at h <;> simp at h
+      next hc =>
+        subst h
+        exact inv_take hI hk hg.2 (by simpa using hc) (Or.inl rfl)
+
+theorem inv_rqsteal {s s' : St} {k q : Nat} {r : Option Nat} (hI : Inv s) (hk : k < 16)
+    (h : core s (.rqsteal k q r) = some s') : Inv s' := by
+  simp only [core] at h
+  split at h
+  · simp at h
+  next hg =>
+    simp only [not_or, Decidable.not_not] at hg
+    split at h
+    · simp at h; subst h; exact hI
+    · split at h <;> simp at h
+      next hc =>
+        subst h
+        exact inv_take hI hk hg.2 (by simpa using hc) (Or.inr rfl)
+theorem inv_rnext {s : St} {k g : Nat} {p : TPc} (hI : Inv s)
+    (hpc : s.tpc k = .held g) (hp : (p = .requeue g ∧ s.fst g = SAVING) ∨ (p = .checked g ∧ s.fst g ≠ SAVING)) :
+    Inv { s with tpc := upd s.tpc k p } := by
+  have hfib : p.fib = some g := by rcases hp with hp | hp <;> simp [hp.1, TPc.fib]
+  have hna : ∀ x, p ≠ .armed x := by rcases hp with hp | hp <;> simp [hp.1]
+  have hnc : ∀ x, p = .checked x → x = g ∧ s.fst g ≠ SAVING := by
+    rcases hp with hp | hp
+    · simp [hp.1]
+    · intro x hx; rw [hp.1] at hx; cases hx; exact ⟨rfl, hp.2⟩
+  clear hp
+  destruct_inv hI
+  inv_auto
+
+theorem inv_rmaint {s : St} {k v : Nat} {m : MSt} (hI : Inv s)
+    (hm : s.mst k = .read) (hv : v = s.fst (s.old k))
+    (hm' : m = (if v = SAVING then .flip else if v = READY then .push
+                else if v = DONE then .destroy else .idle)) :
+    Inv { s with pub := if v = WAITING then upd s.pub (s.old k) true else s.pub,
+                 mst := upd s.mst k m } := by
+  subst hm' hv
+  destruct_inv hI
+  inv_auto
+
+theorem inv_rState {s s' : St} {k g v : Nat} {fn : Fn} (hI : Inv s)
+    (h : core s (.rState k g v fn) = some s') : Inv s' := by
+  simp only [core] at h
+  split at h
+  · simp at h
+  next hg =>
+    simp only [not_or, Decidable.not_not] at hg
+    obtain ⟨hv, -⟩ := hg
+    split at h
+    · -- next
+      split at h
+      next h' hpc =>
+        split at h <;> simp at h
+        subst h; subst h'
+        apply inv_rnext hI hpc
+        by_cases hs : v = SAVING
+        · left; simp [hs]; rw [← hv, hs]
+        · right; simp [hs]; rwa [← hv]
+      · simp at h
+    · -- maint
+      split at h
+      next hc =>
+        simp at h; subst h
+        obtain ⟨hgo, -, hm⟩ := hc
+        subst hgo
+        exact inv_rmaint hI hm hv rfl
+      · split at h <;> simp at h
+        subst h; exact hI
+    all_goals (first | (split at h <;> simp at h <;> subst h <;> exact hI) | (simp at h; subst h; exact hI))
+/-- the running fiber of thread k rewrites its own state word from RUNNING (yield's READY,
+    P-defer's WAITING, completion's DONE) -/
+theorem inv_wcur {s : St} {k v : Nat} (hI : Inv s) (hk : k < 16)
+    (hf : s.fst (s.cur k) = RUNNING) (hv : v ≠ SAVING) :
+    Inv { s with fst := upd s.fst (s.cur k) v } := by
+  have hrun := hI.live k hk
+  destruct_inv hI
+  inv_auto
+
+theorem inv_wsaving {s : St} {k : Nat} (hI : Inv s) (hk : k < 16)
+    (hf : s.fst (s.cur k) = RUNNING) :
+    Inv { s with fst := upd s.fst (s.cur k) SAVING, pub := upd s.pub (s.cur k) true } := by
+  have hrun := hI.live k hk
+  destruct_inv hI
+  inv_auto
+
+theorem inv_warm {s : St} {k g : Nat} (hI : Inv s) (hpc : s.tpc k = .checked g) :
+    Inv { s with fst := upd s.fst g RUNNING, tpc := upd s.tpc k (.armed g) } := by
+  have hc := hI.chk k g hpc
+  have hfib : (s.tpc k).fib = some g := by simp [hpc, TPc.fib]
+  destruct_inv hI
+  inv_auto
+
+theorem inv_wflip {s : St} {k : Nat} (hI : Inv s) (hm : s.mst k = .flip) :
+    Inv { s with fst := upd s.fst (s.old k) WAITING, mst := upd s.mst k .idle } := by
+  have hc := hI.winC k (by simp [hm])
+  have hf := hI.winF k hm
+  destruct_inv hI
+  inv_auto
+
+theorem inv_wwake {s : St} {g : Nat} (hI : Inv s) (hf : s.fst g = WAITING) (hp : s.pub g = true) :
+    Inv { s with fst := upd s.fst g READY } := by
+  destruct_inv hI
+  inv_auto
+theorem inv_wState {s s' : St} {k g v : Nat} {fn : Fn} (hI : Inv s) (hk : k < 16)
+    (h : core s (.wState k g v fn) = some s') : Inv s' := by
+  simp only [core] at h
+  split at h
+  · simp at h
+  · split at h
+    · -- switchTo
+      split at h
+      next hc =>
+        simp at h; subst h
+        obtain ⟨hg, -, hf⟩ := hc
+        subst hg
+        exact inv_wcur hI hk hf (by simp [READY, SAVING])
+      · split at h
+        next h' hpc =>
+          split at h <;> simp at h
+          next hc =>
+            subst h
+            obtain ⟨hg, -⟩ := hc
+            subst hg
+            exact inv_warm hI hpc
+        · simp at h
+    · -- maint
+      split at h <;> simp at h
+      next hc =>
+        subst h
+        obtain ⟨hg, -, -, -, hm⟩ := hc
+        subst hg
+        exact inv_wflip hI hm
+    · -- waitSaving
+      split at h <;> simp at h
+      next hc =>
+        subst h
+        obtain ⟨hg, -, hf, -⟩ := hc
+        subst hg
+        exact inv_wsaving hI hk hf
+    · -- waitDefer
+      split at h <;> simp at h
+      next hc =>
+        subst h
+        obtain ⟨hg, -, hf, -⟩ := hc
+        subst hg
+        exact inv_wcur hI hk hf (by simp [WAITING, SAVING])
+    · -- wake
+      split at h <;> simp at h
+      next hc =>
+        subst h
+        exact inv_wwake hI hc.2.1 hc.2.2.1
+    · -- done
+      split at h
+      next hc =>
+        simp at h; subst h
+        obtain ⟨hg, -, hf, -⟩ := hc
+        subst hg
+        exact inv_wcur hI hk hf (by simp [DONE, SAVING])
+      · split at h <;> simp at h
+        next hc =>
+          subst h
+          exact inv_wwake hI hc.2.1 hc.2.2.1
+    · simp at h
+/-- the guard of `switch k g` in propositional form -/
+def SwitchOk (s : St) (k g : Nat) : Prop :=
+  g ≠ s.cur k ∧
+  ((s.tracked g = true ∧ s.tpc k = .armed g) ∨
+   (s.tracked g = false ∧ s.tpc k = .run ∧ s.maintOf g = k))
+
+/-- THE property: the target of an accepted context switch has a saved (or fresh) context -/
+theorem switch_target {s : St} {k g : Nat} (hI : Inv s) (hk : k < 16) (hok : SwitchOk s k g) :
+    s.ctx g = .saved ∨ s.ctx g = .fresh := by
+  obtain ⟨hne, hok⟩ := hok
+  rcases hok with ⟨-, hpc⟩ | ⟨htr, -, hm⟩
+  · exact (hI.arm k g hpc).1
+  · cases hc : s.ctx g with
+    | saved => simp
+    | fresh => simp
+    | none => have := hI.cnone g hc; omega
+    | dead => have := hI.cdead g hc; simp [htr] at this
+    | running k' =>
+      have h1 := hI.untr g k' htr hc
+      have h2 := (hI.liveU g k' hc).2
+      rw [h1] at hm; subst hm
+      exact absurd h2.symm hne
+
+theorem inv_switch_tr {s : St} {k g : Nat} (hI : Inv s) (hk : k < 16) (hne : g ≠ s.cur k)
+    (htr : s.tracked g = true) (hpc : s.tpc k = .armed g) :
+    Inv { s with ctx := upd (upd s.ctx (s.cur k) .saved) g (.running k), cur := upd s.cur k g,
+                 old := upd s.old k (s.cur k), tpc := upd s.tpc k .run, pub := upd s.pub g false,
+                 mst := upd s.mst k .read } := by
+  have hrun := hI.live k hk
+  have hc1 : upd (upd s.ctx (s.cur k) .saved) g (.running k) g = .running k := by simp
+  have hc2 : upd (upd s.ctx (s.cur k) .saved) g (.running k) (s.cur k) = .saved := by
+    simp [upd]; intro h; exact absurd h.symm hne
+  have hc3 : ∀ x, x ≠ g → x ≠ s.cur k → upd (upd s.ctx (s.cur k) .saved) g (.running k) x = s.ctx x := by
+    intro x h1 h2; simp [upd, h1, h2]
+  generalize upd (upd s.ctx (s.cur k) .saved) g (.running k) = c' at hc1 hc2 hc3 ⊢
+  have ha := hI.arm k g hpc
+  have hfib : (s.tpc k).fib = some g := by simp [hpc, TPc.fib]
+  destruct_inv hI
+  inv_auto
+
+theorem inv_switch_un {s : St} {k g : Nat} (hI : Inv s) (hk : k < 16) (hne : g ≠ s.cur k)
+    (htr : s.tracked g = false) (hpc : s.tpc k = .run) (hm : s.maintOf g = k) :
+    Inv { s with ctx := upd (upd s.ctx (s.cur k) .saved) g (.running k), cur := upd s.cur k g,
+                 old := upd s.old k (s.cur k), tpc := upd s.tpc k .run, pub := upd s.pub g false,
+                 mst := upd s.mst k .read } := by
+  have htg := switch_target hI hk ⟨hne, Or.inr ⟨htr, hpc, hm⟩⟩
+  have hrun := hI.live k hk
+  have hc1 : upd (upd s.ctx (s.cur k) .saved) g (.running k) g = .running k := by simp
+  have hc2 : upd (upd s.ctx (s.cur k) .saved) g (.running k) (s.cur k) = .saved := by
+    simp [upd]; intro h; exact absurd h.symm hne
+  have hc3 : ∀ x, x ≠ g → x ≠ s.cur k → upd (upd s.ctx (s.cur k) .saved) g (.running k) x = s.ctx x := by
+    intro x h1 h2; simp [upd, h1, h2]
+  generalize upd (upd s.ctx (s.cur k) .saved) g (.running k) = c' at hc1 hc2 hc3 ⊢
+  destruct_inv hI
+  inv_auto
+
+theorem switch_ok_of_core {s s' : St} {k g : Nat} (h : core s (.switch k g) = some s') :
+    SwitchOk s k g ∧
+    s' = { s with ctx := upd (upd s.ctx (s.cur k) .saved) g (.running k), cur := upd s.cur k g,
+                  old := upd s.old k (s.cur k), tpc := upd s.tpc k .run, pub := upd s.pub g false,
+                  mst := upd s.mst k .read } := by
+  simp only [core] at h
+  by_cases htr : s.tracked g = true
+  · simp only [htr, if_true] at h
+    split at h
+    next hc =>
+      simp at h
+      exact ⟨⟨hc.2, Or.inl ⟨htr, by simpa using hc.1⟩⟩, h.symm⟩
+    · simp at h
+  · rw [if_neg htr] at h
+    split at h
+    next hc =>
+      simp at h hc
+      exact ⟨⟨hc.2, Or.inr ⟨by simpa using htr, hc.1.1, hc.1.2⟩⟩, h.symm⟩
+    · simp at h
+
+theorem inv_switch {s s' : St} {k g : Nat} (hI : Inv s) (hk : k < 16)
+    (h : core s (.switch k g) = some s') : Inv s' := by
+  obtain ⟨⟨hne, hok⟩, rfl⟩ := switch_ok_of_core h
+  rcases hok with ⟨htr, hpc⟩ | ⟨htr, hpc, hm⟩
+  · exact inv_switch_tr hI hk hne htr hpc
+  · exact inv_switch_un hI hk hne htr hpc hm
+
+theorem inv_destroy {s s' : St} {k g : Nat} (hI : Inv s)
+    (h : core s (.destroy k g) = some s') : Inv s' := by
+  simp only [core] at h
+  split at h <;> simp at h
+  next hc =>
+    subst h
+    obtain ⟨hg, hf, hpc, htr, hnb, hnh, hm⟩ := hc
+    subst hg
+    have hsv := hI.winC k (by simp [hm])
+    have hpub := hI.winPub k (by simp [hm]) (by simp [hf, DONE, SAVING])
+    have hb := hI.winBag k
+    have hh := hI.winHand k
+    destruct_inv hI
+    inv_auto
+
+theorem inv_core {s s' : St} {e : Ev} (hI : Inv s) (hw : e.wf = true) (h : core s e = some s') :
+    Inv s' := by
+  cases e with
+  | create k g => exact inv_create hI h
+  | spawn => simp [core] at h; subst h; destruct_inv hI; constructor <;> assumption
+  | tick => simp [core] at h; subst h; exact hI
+  | rqpush k q g fn =>
+    simp [Ev.wf, NQ] at hw; exact inv_rqpush hI (of_decide_eq_true hw.2) h
+  | rqpop k q r => simp [Ev.wf] at hw; exact inv_rqpop hI hw.1 h
+  | rqsteal k q r => simp [Ev.wf] at hw; exact inv_rqsteal hI hw.1 h
+  | rState k g v fn => exact inv_rState hI h
+  | wState k g v fn => simp [Ev.wf] at hw; exact inv_wState hI hw h
+  | switch k g => simp [Ev.wf] at hw; exact inv_switch hI hw h
+  | destroy k g => exact inv_destroy hI h
+
+theorem inv_step {s s' : St} {e : Ev} (hI : Inv s) (h : step s e = some s') : Inv s' := by
+  obtain ⟨hw, hc⟩ := step_core h
+  exact inv_core hI hw hc
+
+theorem inv_of_run {es : List Ev} {s : St} (h : sys.run es = some s) : Inv s :=
+  Sys.inv_of_run sys Inv inv_init (fun _ _ _ hI hs => inv_step hI hs) h
+
+/-! ### projection of a step onto run queues and hands -/
+
+/-- projection of one accepted step onto run queues, hands and the tracked flag -/
+def Eff (s s' : St) : Ev → Prop
+  | .rqpush k q g fn => k < 16 ∧ q < 32 ∧ s.tracked g = true ∧ s'.bag = upd s.bag q (g :: s.bag q) ∧
+      s'.tracked = s.tracked ∧
+      ((fn = .wake ∧ s'.tpc = s.tpc) ∨
+       (fn = .next ∧ s.tpc k = .requeue g ∧ s'.tpc = upd s.tpc k .run) ∨
+       (fn = .other ∧ s.tpc k = .stolen g ∧ s'.tpc = upd s.tpc k .run))
+  | .rqpop k q (some g) => k < 16 ∧ q < 32 ∧ g ∈ s.bag q ∧ s.tpc k = .run ∧
+      s'.bag = upd s.bag q ((s.bag q).erase g) ∧ s'.tpc = upd s.tpc k (.held g) ∧ s'.tracked = s.tracked
+  | .rqsteal k q (some g) => k < 16 ∧ q < 32 ∧ g ∈ s.bag q ∧ s.tpc k = .run ∧
+      s'.bag = upd s.bag q ((s.bag q).erase g) ∧ s'.tpc = upd s.tpc k (.stolen g) ∧ s'.tracked = s.tracked
+  | .switch k g => k < 16 ∧ s'.bag = s.bag ∧ s'.tracked = s.tracked ∧ s'.tpc = upd s.tpc k .run ∧
+      ((s.tracked g = true ∧ s.tpc k = .armed g) ∨ (s.tracked g = false ∧ s.tpc k = .run))
+  | .rState k g _ _ => s'.bag = s.bag ∧ s'.tracked = s.tracked ∧
+      (s'.tpc = s.tpc ∨ (k < 16 ∧ s.tpc k = .held g ∧
+        (s'.tpc = upd s.tpc k (.requeue g) ∨ s'.tpc = upd s.tpc k (.checked g))))
+  | .wState k g _ _ => s'.bag = s.bag ∧ s'.tracked = s.tracked ∧
+      (s'.tpc = s.tpc ∨ (k < 16 ∧ s.tpc k = .checked g ∧ s'.tpc = upd s.tpc k (.armed g)))
+  | .create _ g => s.ctx g = .none ∧ s'.bag = s.bag ∧ s'.tpc = s.tpc ∧
+      (∀ x, x ≠ g → s'.tracked x = s.tracked x)
+  | _ => s'.bag = s.bag ∧ s'.tpc = s.tpc ∧ s'.tracked = s.tracked
+
+theorem eff_of_step {s s' : St} {e : Ev} (h : step s e = some s') : Eff s s' e := by
+  obtain ⟨hw, h⟩ := step_core h
+  cases e with
+  | create k g =>
+    simp only [core] at h; split at h <;> simp at h; subst h
+    simp [Eff, *]; intro x hx; simp [upd, hx]
+  | spawn => simp [core] at h; subst h; simp [Eff]
+  | tick => simp [core] at h; subst h; simp [Eff]
+  | rqpush k q g fn =>
+    simp only [Ev.wf, Bool.and_eq_true, decide_eq_true_eq] at hw; simp only [NQ] at hw
+    simp only [core] at h
+    (repeat' split at h) <;> simp at h <;> subst h <;> simp_all [Eff]
+  | rqpop k q r =>
+    simp only [Ev.wf, Bool.and_eq_true, decide_eq_true_eq] at hw; simp only [NQ] at hw
+    simp only [core] at h
+    (repeat' split at h) <;> simp at h <;> subst h <;> simp_all [Eff]
+  | rqsteal k q r =>
+    simp only [Ev.wf, Bool.and_eq_true, decide_eq_true_eq] at hw; simp only [NQ] at hw
+    simp only [core] at h
+    (repeat' split at h) <;> simp at h <;> subst h <;> simp_all [Eff]
+  | rState k g v fn =>
+    simp only [Ev.wf, decide_eq_true_eq] at hw
+    simp only [core] at h
+    (repeat' split at h) <;> simp at h <;> subst h <;> simp_all [Eff]
+  | wState k g v fn =>
+    simp only [Ev.wf, decide_eq_true_eq] at hw
+    simp only [core] at h
+    (repeat' split at h) <;> simp at h <;> subst h <;> simp_all [Eff]
+  | switch k g =>
+    simp [Ev.wf] at hw
+    obtain ⟨⟨-, hok⟩, rfl⟩ := switch_ok_of_core h
+    simp only [Eff]
+    refine ⟨hw, trivial, trivial, trivial, ?_⟩
+    rcases hok with h1 | h1
+    · exact Or.inl h1
+    · exact Or.inr ⟨h1.1, h1.2.1⟩
+  | destroy k g =>
+    simp only [core] at h; split at h <;> simp at h; subst h
+    simp [Eff]
+
+
+/-! ### counting places -/
+
+/-- Σ_{j<n} c (f j) -/
+def sumTo {α : Type} (n : Nat) (f : Nat → α) (c : α → Nat) : Nat :=
+  ((List.range n).map (fun j => c (f j))).sum
+
+theorem sumTo_succ {α : Type} (n : Nat) (f : Nat → α) (c : α → Nat) :
+    sumTo (n + 1) f c = sumTo n f c + c (f n) := by
+  simp [sumTo, List.range_succ]
+
+theorem sumTo_upd {α : Type} (n : Nat) (f : Nat → α) (c : α → Nat) (i : Nat) (v : α) (hi : i < n) :
+    sumTo n (upd f i v) c + c (f i) = sumTo n f c + c v := by
+  induction n with
+  | zero => omega
+  | succ n ih =>
+    rw [sumTo_succ, sumTo_succ]
+    by_cases h : i = n
+    · subst h
+      have : sumTo i (upd f i v) c = sumTo i f c := by
+        clear ih hi
+        simp only [sumTo]
+        congr 1
+        apply List.map_congr_left
+        intro j hj
+        simp at hj
+        have : j ≠ i := by omega
+        simp [upd, this]
+      simp [this]; omega
+    · have := ih (by omega)
+      simp [upd_other _ _ _ _ (Ne.symm h)]
+      omega
+
+theorem sumTo_zero {α : Type} (n : Nat) (f : Nat → α) (c : α → Nat) (h : ∀ j, j < n → c (f j) = 0) :
+    sumTo n f c = 0 := by
+  induction n with
+  | zero => rfl
+  | succ n ih => rw [sumTo_succ, ih (fun j hj => h j (by omega)), h n (by omega)]
+
+theorem sumTo_pos {α : Type} (n : Nat) (f : Nat → α) (c : α → Nat) (h : 0 < sumTo n f c) :
+    ∃ j, j < n ∧ 0 < c (f j) := by
+  induction n with
+  | zero => simp [sumTo] at h
+  | succ n ih =>
+    rw [sumTo_succ] at h
+    by_cases hn : 0 < c (f n)
+    · exact ⟨n, by omega, hn⟩
+    · obtain ⟨j, hj, hc⟩ := ih (by omega)
+      exact ⟨j, by omega, hc⟩
+
+theorem sumTo_le_one {α : Type} (n : Nat) (f : Nat → α) (c : α → Nat)
+    (h1 : ∀ j, j < n → c (f j) ≤ 1)
+    (hu : ∀ i j, i < n → j < n → 0 < c (f i) → 0 < c (f j) → i = j) : sumTo n f c ≤ 1 := by
+  induction n with
+  | zero => simp [sumTo]
+  | succ n ih =>
+    rw [sumTo_succ]
+    by_cases hn : 0 < c (f n)
+    · have : sumTo n f c = 0 := by
+        apply sumTo_zero
+        intro j hj
+        by_cases hj0 : 0 < c (f j)
+        · have := hu j n (by omega) (by omega) hj0 hn; omega
+        · omega
+      have := h1 n (by omega); omega
+    · have := ih (fun j hj => h1 j (by omega)) (fun i j hi hj => hu i j (by omega) (by omega))
+      omega
+
+/-- number of run-queue entries holding g (over all 32 queues, with multiplicity) -/
+def bagCnt (b : Nat → List Nat) (g : Nat) : Nat := sumTo NQ b (fun l => l.count g)
+
+/-- 1 if the hand holds g -/
+def hc (g : Nat) (p : TPc) : Nat := if p.fib = some g then 1 else 0
+
+/-- number of kernel threads holding g in their hand -/
+def handCnt (t : Nat → TPc) (g : Nat) : Nat := sumTo 16 t (hc g)
+
+/-- number of places g is in -/
+def places (s : St) (g : Nat) : Nat := bagCnt s.bag g + handCnt s.tpc g
+
+theorem bagCnt_cons (b : Nat → List Nat) (q x g : Nat) (hq : q < 32) :
+    bagCnt (upd b q (x :: b q)) g = bagCnt b g + (if x = g then 1 else 0) := by
+  have := sumTo_upd NQ b (fun l => l.count g) q (x :: b q) hq
+  simp only [bagCnt]
+  simp only [List.count_cons] at this
+  by_cases h : x = g <;> simp [h] at this ⊢ <;> omega
+
+theorem bagCnt_erase (b : Nat → List Nat) (q x g : Nat) (hq : q < 32) (hx : x ∈ b q) :
+    bagCnt (upd b q ((b q).erase x)) g + (if x = g then 1 else 0) = bagCnt b g := by
+  have := sumTo_upd NQ b (fun l => l.count g) q ((b q).erase x) hq
+  simp only [bagCnt]
+  simp only [List.count_erase] at this
+  by_cases h : x = g
+  · subst h
+    have hpos : 0 < (b q).count x := List.count_pos_iff.mpr hx
+    simp at this ⊢; omega
+  · simp [h] at this ⊢; omega
+
+theorem handCnt_upd (t : Nat → TPc) (k g : Nat) (p : TPc) (hk : k < 16) :
+    handCnt (upd t k p) g + hc g (t k) = handCnt t g + hc g p :=
+  sumTo_upd 16 t (hc g) k p hk
+
+theorem places_le_one {s : St} (hI : Inv s) (g : Nat) : places s g ≤ 1 := by
+  have hb : bagCnt s.bag g ≤ 1 := by
+    apply sumTo_le_one
+    · intro j _; exact List.nodup_iff_count.mp (hI.nodup j) g
+    · intro i j _ _ hi hj
+      exact hI.bagbag i j g (List.count_pos_iff.mp hi) (List.count_pos_iff.mp hj)
+  have hh : handCnt s.tpc g ≤ 1 := by
+    apply sumTo_le_one
+    · intro j _; simp only [hc]; split <;> omega
+    · intro i j _ _ hi hj
+      simp only [hc] at hi hj
+      split at hi <;> split at hj <;> simp at hi hj
+      exact hI.handhand i j g (by assumption) (by assumption)
+  by_cases hpos : 0 < bagCnt s.bag g
+  · obtain ⟨q, _, hq⟩ := sumTo_pos _ _ _ hpos
+    have : handCnt s.tpc g = 0 := by
+      apply sumTo_zero
+      intro k _
+      simp only [hc]
+      split
+      · exact absurd (by assumption) (hI.baghand q k g (List.count_pos_iff.mp hq))
+      · rfl
+    simp only [places]; omega
+  · simp only [places]; omega
+
+theorem bagCnt_zero {s : St} {g : Nat} (h : ∀ q, g ∉ s.bag q) : bagCnt s.bag g = 0 :=
+  sumTo_zero _ _ _ (fun q _ => List.count_eq_zero.mpr (h q))
+
+theorem handCnt_zero {s : St} {g : Nat} (h : ∀ k, (s.tpc k).fib ≠ some g) : handCnt s.tpc g = 0 :=
+  sumTo_zero _ _ _ (fun k _ => by simp [hc, h k])
+
+theorem places_pos {s : St} {g : Nat} (hI : Inv s) (h : 0 < places s g) : Q s g := by
+  simp only [places] at h
+  by_cases hb : 0 < bagCnt s.bag g
+  · obtain ⟨q, _, hq⟩ := sumTo_pos _ _ _ hb
+    exact hI.bagQ q g (List.count_pos_iff.mp hq)
+  · obtain ⟨k, _, hk⟩ := sumTo_pos _ _ _ (show 0 < handCnt s.tpc g by omega)
+    simp only [hc] at hk
+    split at hk
+    · exact hI.handQ k g (by assumption)
+    · omega
+
+/-! ### event counters -/
+
+def cnt (p : Ev → Bool) (es : List Ev) : Nat := es.countP p
+
+theorem cnt_snoc (p : Ev → Bool) (es : List Ev) (e : Ev) :
+    cnt p (es ++ [e]) = cnt p es + (if p e then 1 else 0) := by
+  simp [cnt, List.countP_append, List.countP_cons]
+
+/-- a wake-up: `fiber_scheduler_schedule` of g by a creator, a waker or maintenance -/
+def isWake (g : Nat) : Ev → Bool
+  | .rqpush _ _ x .wake => x == g
+  | _ => false
+/-- any push of g (wake-up, SAVING re-queue, load-balance re-push) -/
+def isPush (g : Nat) : Ev → Bool
+  | .rqpush _ _ x _ => x == g
+  | _ => false
+/-- a pop or steal returning g -/
+def isTake (g : Nat) : Ev → Bool
+  | .rqpop _ _ (some x) => x == g
+  | .rqsteal _ _ (some x) => x == g
+  | _ => false
+/-- a context switch to g -/
+def isSwitch (g : Nat) : Ev → Bool
+  | .switch _ x => x == g
+  | _ => false
+def isPopBy (k g : Nat) : Ev → Bool
+  | .rqpop k' _ (some x) => k' == k && x == g
+  | _ => false
+def isSwitchBy (k g : Nat) : Ev → Bool
+  | .switch k' x => k' == k && x == g
+  | _ => false
+def isRequeueBy (k g : Nat) : Ev → Bool
+  | .rqpush k' _ x .next => k' == k && x == g
+  | _ => false
+/-- any run-queue or switch event about g -/
+def isAbout (g : Nat) : Ev → Bool
+  | .rqpush _ _ x _ => x == g
+  | .rqpop _ _ (some x) => x == g
+  | .rqsteal _ _ (some x) => x == g
+  | .switch _ x => x == g
+  | _ => false
+
+/-- 1 if the hand holds g as the result of a POP (not of a steal) -/
+def popHand (g : Nat) : TPc → Nat
+  | .held h => if h = g then 1 else 0
+  | .requeue h => if h = g then 1 else 0
+  | .checked h => if h = g then 1 else 0
+  | .armed h => if h = g then 1 else 0
+  | _ => 0
+
+theorem ctx_none_back {s s' : St} {e : Ev} (h : step s e = some s') (g : Nat)
+    (hn : s'.ctx g = .none) : s.ctx g = .none := by
+  obtain ⟨-, h⟩ := step_core h
+  cases e <;> simp only [core] at h <;> (repeat' split at h) <;> simp at h <;> subst h <;>
+    (first | exact hn | (simp only [upd] at hn; grind))
+
+theorem about_not_none {s s' : St} {e : Ev} (hI : Inv s) (h : step s e = some s') (g : Nat)
+    (ha : isAbout g e = true) : s.ctx g ≠ .none := by
+  have hE := eff_of_step h
+  intro hn
+  have htr := (hI.cnone g hn).2.2
+  cases e with
+  | rqpush k q x fn =>
+    simp [isAbout] at ha; subst ha
+    simp only [Eff] at hE; simp [hE.2.2.1] at htr
+  | rqpop k q r =>
+    cases r with
+    | none => simp [isAbout] at ha
+    | some x =>
+      simp [isAbout] at ha; subst ha
+      simp only [Eff] at hE
+      have := (hI.bagQ q x hE.2.2.1).1; simp [this] at htr
+  | rqsteal k q r =>
+    cases r with
+    | none => simp [isAbout] at ha
+    | some x =>
+      simp [isAbout] at ha; subst ha
+      simp only [Eff] at hE
+      have := (hI.bagQ q x hE.2.2.1).1; simp [this] at htr
+  | switch k x =>
+    simp [isAbout] at ha; subst ha
+    obtain ⟨hw, hc⟩ := step_core h
+    simp [Ev.wf] at hw
+    have := switch_target hI hw (switch_ok_of_core hc).1
+    simp [hn] at this
+  | _ => simp [isAbout] at ha
+
+theorem cnt_mono {p q : Ev → Bool} (h : ∀ e, p e = true → q e = true) (es : List Ev) :
+    cnt p es ≤ cnt q es := List.countP_mono_left (fun e _ => h e)
+
+theorem cnt_zero_of_about {p : Ev → Bool} {g : Nat} {es : List Ev}
+    (h : ∀ e, p e = true → isAbout g e = true) (h0 : cnt (isAbout g) es = 0) : cnt p es = 0 := by
+  have := cnt_mono h es; omega
+
+theorem wake_about (g : Nat) (e : Ev) (h : isWake g e = true) : isAbout g e = true := by
+  cases e <;> simp [isWake, isAbout] at h ⊢
+  next k q x fn => cases fn <;> simp at h <;> exact h
+theorem switch_about (g : Nat) (e : Ev) (h : isSwitch g e = true) : isAbout g e = true := by
+  cases e <;> simp [isSwitch, isAbout] at h ⊢; exact h
+theorem popBy_about (k g : Nat) (e : Ev) (h : isPopBy k g e = true) : isAbout g e = true := by
+  cases e <;> simp [isPopBy, isAbout] at h ⊢
+  next k q r => cases r <;> simp at h ⊢; exact h.2
+theorem switchBy_about (k g : Nat) (e : Ev) (h : isSwitchBy k g e = true) : isAbout g e = true := by
+  cases e <;> simp [isSwitchBy, isAbout] at h ⊢; exact h.2
+theorem requeueBy_about (k g : Nat) (e : Ev) (h : isRequeueBy k g e = true) : isAbout g e = true := by
+  cases e <;> simp [isRequeueBy, isAbout] at h ⊢
+  next k q x fn => cases fn <;> simp at h <;> exact h.2
+
+theorem popHand_le_hc (g : Nat) (p : TPc) : popHand g p ≤ hc g p := by
+  cases p <;> simp [popHand, hc, TPc.fib]
+
+/-- the history invariant: token conservation -/
+structure Hist (s : St) (es : List Ev) : Prop where
+  token : ∀ g, cnt (isPush g) es = cnt (isTake g) es + bagCnt s.bag g
+  fresh : ∀ g, s.ctx g = .none → cnt (isAbout g) es = 0
+  wake : ∀ g, s.tracked g = true → cnt (isWake g) es = cnt (isSwitch g) es + places s g
+  pops : ∀ g k, s.tracked g = true →
+    cnt (isPopBy k g) es = cnt (isSwitchBy k g) es + cnt (isRequeueBy k g) es + popHand g (s.tpc k)
+
+theorem hist_init : Hist init [] := by
+  constructor
+  · intro g
+    rw [bagCnt_zero (s := init) (by intro q; simp [init])]; simp [cnt]
+  · intro g _; simp [cnt]
+  · intro g _
+    rw [places, bagCnt_zero (s := init) (by intro q; simp [init]),
+      handCnt_zero (s := init) (by intro k; simp [init, TPc.fib])]
+    simp [cnt]
+  · intro g k _; simp [cnt, init, popHand]
+
+theorem places_none {s : St} (hI : Inv s) {g : Nat} (hn : s.ctx g = .none) : places s g = 0 := by
+  by_cases h : 0 < places s g
+  · have := (places_pos hI h).1
+    simp [(hI.cnone g hn).2.2] at this
+  · omega
+
+theorem hist_token {s s' : St} {es : List Ev} {e : Ev} (hH : Hist s es)
+    (hE : Eff s s' e) (g : Nat) :
+    cnt (isPush g) (es ++ [e]) = cnt (isTake g) (es ++ [e]) + bagCnt s'.bag g := by
+  rw [cnt_snoc, cnt_snoc]
+  have h0 := hH.token g
+  cases e with
+  | rqpush k q x fn =>
+    simp only [Eff] at hE
+    obtain ⟨-, hq, -, hb, -, -⟩ := hE
+    rw [hb, bagCnt_cons _ _ _ _ hq]
+    simp [isPush, isTake]; omega
+  | rqpop k q r =>
+    cases r with
+    | none => simp only [Eff] at hE; simp [isPush, isTake, hE.1]; omega
+    | some x =>
+      simp only [Eff] at hE
+      obtain ⟨-, hq, hx, -, hb, -, -⟩ := hE
+      have := bagCnt_erase s.bag q x g hq hx
+      rw [hb]
+      simp [isPush, isTake]; omega
+  | rqsteal k q r =>
+    cases r with
+    | none => simp only [Eff] at hE; simp [isPush, isTake, hE.1]; omega
+    | some x =>
+      simp only [Eff] at hE
+      obtain ⟨-, hq, hx, -, hb, -, -⟩ := hE
+      have := bagCnt_erase s.bag q x g hq hx
+      rw [hb]
+      simp [isPush, isTake]; omega
+  | switch k x => simp only [Eff] at hE; simp [isPush, isTake, hE.2.1]; omega
+  | rState k x v fn => simp only [Eff] at hE; simp [isPush, isTake, hE.1]; omega
+  | wState k x v fn => simp only [Eff] at hE; simp [isPush, isTake, hE.1]; omega
+  | create k x => simp only [Eff] at hE; simp [isPush, isTake, hE.2.1]; omega
+  | spawn => simp only [Eff] at hE; simp [isPush, isTake, hE.1]; omega
+  | tick => simp only [Eff] at hE; simp [isPush, isTake, hE.1]; omega
+  | destroy k x => simp only [Eff] at hE; simp [isPush, isTake, hE.1]; omega
+
+theorem hist_fresh {s s' : St} {es : List Ev} {e : Ev} (hI : Inv s) (hH : Hist s es)
+    (hs : step s e = some s') (g : Nat) (hn : s'.ctx g = .none) :
+    cnt (isAbout g) (es ++ [e]) = 0 := by
+  have hn0 := ctx_none_back hs g hn
+  rw [cnt_snoc, hH.fresh g hn0]
+  by_cases ha : isAbout g e = true
+  · exact absurd hn0 (about_not_none hI hs g ha)
+  · simp [ha]
+
+theorem hist_wake {s s' : St} {es : List Ev} {e : Ev} (hI : Inv s) (hH : Hist s es)
+    (hE : Eff s s' e) (g : Nat) (htr : s'.tracked g = true) :
+    cnt (isWake g) (es ++ [e]) = cnt (isSwitch g) (es ++ [e]) + places s' g := by
+  rw [cnt_snoc, cnt_snoc]
+  cases e with
+  | rqpush k q x fn =>
+    simp only [Eff] at hE
+    obtain ⟨hk, hq, -, hb, ht, hfn⟩ := hE
+    rw [ht] at htr
+    have h0 := hH.wake g htr
+    simp only [places] at h0 ⊢
+    rw [hb, bagCnt_cons _ _ _ _ hq]
+    rcases hfn with ⟨hfn, hp⟩ | ⟨hfn, hpc, hp⟩ | ⟨hfn, hpc, hp⟩
+    · subst hfn; rw [hp]; simp [isWake, isSwitch]; omega
+    · subst hfn
+      have := handCnt_upd s.tpc k g .run hk
+      rw [hp]; simp [hpc, hc, TPc.fib] at this
+      simp [isWake, isSwitch]; omega
+    · subst hfn
+      have := handCnt_upd s.tpc k g .run hk
+      rw [hp]; simp [hpc, hc, TPc.fib] at this
+      simp [isWake, isSwitch]; omega
+  | rqpop k q r =>
+    cases r with
+    | none =>
+      simp only [Eff] at hE; rw [hE.2.2] at htr
+      have h0 := hH.wake g htr
+      simp [isWake, isSwitch, places, hE.1, hE.2.1] at h0 ⊢; omega
+    | some x =>
+      simp only [Eff] at hE
+      obtain ⟨hk, hq, hx, hpc, hb, hp, ht⟩ := hE
+      rw [ht] at htr
+      have h0 := hH.wake g htr
+      simp only [places] at h0 ⊢
+      have h1 := bagCnt_erase s.bag q x g hq hx
+      have h2 := handCnt_upd s.tpc k g (.held x) hk
+      rw [hb, hp]; simp [hpc, hc, TPc.fib] at h2
+      simp [isWake, isSwitch]; omega
+  | rqsteal k q r =>
+    cases r with
+    | none =>
+      simp only [Eff] at hE; rw [hE.2.2] at htr
+      have h0 := hH.wake g htr
+      simp [isWake, isSwitch, places, hE.1, hE.2.1] at h0 ⊢; omega
+    | some x =>
+      simp only [Eff] at hE
+      obtain ⟨hk, hq, hx, hpc, hb, hp, ht⟩ := hE
+      rw [ht] at htr
+      have h0 := hH.wake g htr
+      simp only [places] at h0 ⊢
+      have h1 := bagCnt_erase s.bag q x g hq hx
+      have h2 := handCnt_upd s.tpc k g (.stolen x) hk
+      rw [hb, hp]; simp [hpc, hc, TPc.fib] at h2
+      simp [isWake, isSwitch]; omega
+  | switch k x =>
+    simp only [Eff] at hE
+    obtain ⟨hk, hb, ht, hp, hc'⟩ := hE
+    rw [ht] at htr
+    have h0 := hH.wake g htr
+    simp only [places] at h0 ⊢
+    have h2 := handCnt_upd s.tpc k g .run hk
+    rw [hb, hp]
+    rcases hc' with ⟨-, hpc⟩ | ⟨hxt, hpc⟩
+    · simp [hpc, hc, TPc.fib] at h2
+      simp [isWake, isSwitch]; omega
+    · simp [hpc, hc, TPc.fib] at h2
+      have : x ≠ g := by intro h; subst h; simp [hxt] at htr
+      simp [isWake, isSwitch, this]; omega
+  | rState k x v fn =>
+    simp only [Eff] at hE
+    obtain ⟨hb, ht, hp⟩ := hE
+    rw [ht] at htr
+    have h0 := hH.wake g htr
+    simp only [places] at h0 ⊢
+    rw [hb]
+    rcases hp with hp | ⟨hk, hpc, hp | hp⟩
+    · rw [hp]; simp [isWake, isSwitch]; omega
+    · have h2 := handCnt_upd s.tpc k g (.requeue x) hk
+      rw [hp]; simp [hpc, hc, TPc.fib] at h2
+      simp [isWake, isSwitch]; omega
+    · have h2 := handCnt_upd s.tpc k g (.checked x) hk
+      rw [hp]; simp [hpc, hc, TPc.fib] at h2
+      simp [isWake, isSwitch]; omega
+  | wState k x v fn =>
+    simp only [Eff] at hE
+    obtain ⟨hb, ht, hp⟩ := hE
+    rw [ht] at htr
+    have h0 := hH.wake g htr
+    simp only [places] at h0 ⊢
+    rw [hb]
+    rcases hp with hp | ⟨hk, hpc, hp⟩
+    · rw [hp]; simp [isWake, isSwitch]; omega
+    · have h2 := handCnt_upd s.tpc k g (.armed x) hk
+      rw [hp]; simp [hpc, hc, TPc.fib] at h2
+      simp [isWake, isSwitch]; omega
+  | create k x =>
+    simp only [Eff] at hE
+    obtain ⟨hn, hb, hp, ht⟩ := hE
+    have hpl : places s' g = places s g := by simp [places, hb, hp]
+    rw [hpl]
+    by_cases hx : g = x
+    · subst hx
+      have hz := hH.fresh g hn
+      rw [cnt_zero_of_about (wake_about g) hz, cnt_zero_of_about (switch_about g) hz,
+        places_none hI hn]
+      simp [isWake, isSwitch]
+    · rw [ht g hx] at htr
+      have h0 := hH.wake g htr
+      simp [isWake, isSwitch]; omega
+  | spawn =>
+    simp only [Eff] at hE; rw [hE.2.2] at htr
+    have h0 := hH.wake g htr
+    simp [isWake, isSwitch, places, hE.1, hE.2.1] at h0 ⊢; omega
+  | tick =>
+    simp only [Eff] at hE; rw [hE.2.2] at htr
+    have h0 := hH.wake g htr
+    simp [isWake, isSwitch, places, hE.1, hE.2.1] at h0 ⊢; omega
+  | destroy k x =>
+    simp only [Eff] at hE; rw [hE.2.2] at htr
+    have h0 := hH.wake g htr
+    simp [isWake, isSwitch, places, hE.1, hE.2.1] at h0 ⊢; omega
+
+theorem popHand_none {s : St} (hI : Inv s) {g : Nat} (hn : s.ctx g = .none) (k : Nat) :
+    popHand g (s.tpc k) = 0 := by
+  have h1 := popHand_le_hc g (s.tpc k)
+  by_cases h : (s.tpc k).fib = some g
+  · have := (hI.handQ k g h).1
+    simp [(hI.cnone g hn).2.2] at this
+  · simp [hc, h] at h1; omega
+
+theorem hist_pops {s s' : St} {es : List Ev} {e : Ev} (hI : Inv s) (hH : Hist s es)
+    (hE : Eff s s' e) (g k : Nat) (htr : s'.tracked g = true) :
+    cnt (isPopBy k g) (es ++ [e]) =
+      cnt (isSwitchBy k g) (es ++ [e]) + cnt (isRequeueBy k g) (es ++ [e]) + popHand g (s'.tpc k) := by
+  rw [cnt_snoc, cnt_snoc, cnt_snoc]
+  cases e with
+  | rqpush k' q x fn =>
+    simp only [Eff] at hE
+    obtain ⟨-, -, -, -, ht, hfn⟩ := hE
+    rw [ht] at htr
+    have h0 := hH.pops g k htr
+    rcases hfn with ⟨hfn, hp⟩ | ⟨hfn, hpc, hp⟩ | ⟨hfn, hpc, hp⟩
+    · subst hfn; rw [hp]; simp [isPopBy, isSwitchBy, isRequeueBy]; omega
+    · subst hfn; rw [hp]
+      by_cases hkk : k' = k
+      · subst hkk; simp [hpc, popHand] at h0; simp [isPopBy, isSwitchBy, isRequeueBy, popHand]; omega
+      · simp [isPopBy, isSwitchBy, isRequeueBy, upd, hkk, Ne.symm hkk]; omega
+    · subst hfn; rw [hp]
+      by_cases hkk : k' = k
+      · subst hkk; simp [hpc, popHand] at h0; simp [isPopBy, isSwitchBy, isRequeueBy, popHand]; omega
+      · simp [isPopBy, isSwitchBy, isRequeueBy, upd, hkk, Ne.symm hkk]; omega
+  | rqpop k' q r =>
+    cases r with
+    | none =>
+      simp only [Eff] at hE; rw [hE.2.2] at htr
+      have h0 := hH.pops g k htr
+      simp [isPopBy, isSwitchBy, isRequeueBy, hE.2.1]; omega
+    | some x =>
+      simp only [Eff] at hE
+      obtain ⟨-, -, -, hpc, -, hp, ht⟩ := hE
+      rw [ht] at htr
+      have h0 := hH.pops g k htr
+      rw [hp]
+      by_cases hkk : k' = k
+      · subst hkk; simp [hpc, popHand] at h0; simp [isPopBy, isSwitchBy, isRequeueBy, popHand]; omega
+      · simp [isPopBy, isSwitchBy, isRequeueBy, upd, hkk, Ne.symm hkk]; omega
+  | rqsteal k' q r =>
+    cases r with
+    | none =>
+      simp only [Eff] at hE; rw [hE.2.2] at htr
+      have h0 := hH.pops g k htr
+      simp [isPopBy, isSwitchBy, isRequeueBy, hE.2.1]; omega
+    | some x =>
+      simp only [Eff] at hE
+      obtain ⟨-, -, -, hpc, -, hp, ht⟩ := hE
+      rw [ht] at htr
+      have h0 := hH.pops g k htr
+      rw [hp]
+      by_cases hkk : k' = k
+      · subst hkk; simp [hpc, popHand] at h0; simp [isPopBy, isSwitchBy, isRequeueBy, popHand]; omega
+      · simp [isPopBy, isSwitchBy, isRequeueBy, upd, hkk, Ne.symm hkk]; omega
+  | switch k' x =>
+    simp only [Eff] at hE
+    obtain ⟨-, -, ht, hp, hc'⟩ := hE
+    rw [ht] at htr
+    have h0 := hH.pops g k htr
+    rw [hp]
+    by_cases hkk : k' = k
+    · subst hkk
+      rcases hc' with ⟨-, hpc⟩ | ⟨hxt, hpc⟩
+      · simp [hpc, popHand] at h0; simp [isPopBy, isSwitchBy, isRequeueBy, popHand]; omega
+      · have : x ≠ g := by intro h; subst h; simp [hxt] at htr
+        simp [hpc, popHand] at h0; simp [isPopBy, isSwitchBy, isRequeueBy, popHand, this]; omega
+    · simp [isPopBy, isSwitchBy, isRequeueBy, upd, hkk, Ne.symm hkk]; omega
+  | rState k' x v fn =>
+    simp only [Eff] at hE
+    obtain ⟨-, ht, hp⟩ := hE
+    rw [ht] at htr
+    have h0 := hH.pops g k htr
+    rcases hp with hp | ⟨-, hpc, hp | hp⟩
+    · rw [hp]; simp [isPopBy, isSwitchBy, isRequeueBy]; omega
+    · rw [hp]
+      by_cases hkk : k' = k
+      · subst hkk; simp [hpc, popHand] at h0; simp [isPopBy, isSwitchBy, isRequeueBy, popHand]; omega
+      · simp [isPopBy, isSwitchBy, isRequeueBy, upd, hkk, Ne.symm hkk]; omega
+    · rw [hp]
+      by_cases hkk : k' = k
+      · subst hkk; simp [hpc, popHand] at h0; simp [isPopBy, isSwitchBy, isRequeueBy, popHand]; omega
+      · simp [isPopBy, isSwitchBy, isRequeueBy, upd, hkk, Ne.symm hkk]; omega
+  | wState k' x v fn =>
+    simp only [Eff] at hE
+    obtain ⟨-, ht, hp⟩ := hE
+    rw [ht] at htr
+    have h0 := hH.pops g k htr
+    rcases hp with hp | ⟨-, hpc, hp⟩
+    · rw [hp]; simp [isPopBy, isSwitchBy, isRequeueBy]; omega
+    · rw [hp]
+      by_cases hkk : k' = k
+      · subst hkk; simp [hpc, popHand] at h0; simp [isPopBy, isSwitchBy, isRequeueBy, popHand]; omega
+      · simp [isPopBy, isSwitchBy, isRequeueBy, upd, hkk, Ne.symm hkk]; omega
+  | create k' x =>
+    simp only [Eff] at hE
+    obtain ⟨hn, -, hp, ht⟩ := hE
+    rw [hp]
+    by_cases hx : g = x
+    · subst hx
+      have hz := hH.fresh g hn
+      rw [cnt_zero_of_about (popBy_about k g) hz, cnt_zero_of_about (switchBy_about k g) hz,
+        cnt_zero_of_about (requeueBy_about k g) hz, popHand_none hI hn]
+      simp [isPopBy, isSwitchBy, isRequeueBy]
+    · rw [ht g hx] at htr
+      have h0 := hH.pops g k htr
+      simp [isPopBy, isSwitchBy, isRequeueBy]; omega
+  | spawn =>
+    simp only [Eff] at hE; rw [hE.2.2] at htr
+    have h0 := hH.pops g k htr
+    simp [isPopBy, isSwitchBy, isRequeueBy, hE.2.1]; omega
+  | tick =>
+    simp only [Eff] at hE; rw [hE.2.2] at htr
+    have h0 := hH.pops g k htr
+    simp [isPopBy, isSwitchBy, isRequeueBy, hE.2.1]; omega
+  | destroy k' x =>
+    simp only [Eff] at hE; rw [hE.2.2] at htr
+    have h0 := hH.pops g k htr
+    simp [isPopBy, isSwitchBy, isRequeueBy, hE.2.1]; omega
+
+theorem hist_step {s s' : St} {es : List Ev} {e : Ev} (hI : Inv s) (hH : Hist s es)
+    (hs : step s e = some s') : Hist s' (es ++ [e]) := by
+  have hE := eff_of_step hs
+  exact ⟨hist_token hH hE, hist_fresh hI hH hs, hist_wake hI hH hE, fun g k => hist_pops hI hH hE g k⟩
+
+theorem inv_hist_of_run {es : List Ev} {s : St} (h : sys.run es = some s) : Inv s ∧ Hist s es :=
+  Sys.hist_inv_of_run sys (fun s es => Inv s ∧ Hist s es) ⟨inv_init, hist_init⟩
+    (fun _ _ _ _ hI hs => ⟨inv_step hI.1 hs, hist_step hI.1 hI.2 hs⟩) h
+
+/-! ### C01 helpers: who runs where, dead fibers -/
+
+theorem cur_step {s s' : St} {e : Ev} {k : Nat} (h : step s e = some s')
+    (hne : ∀ x, e ≠ .switch k x) : s'.cur k = s.cur k := by
+  obtain ⟨-, h⟩ := step_core h
+  cases e with
+  | switch k' x =>
+    obtain ⟨-, rfl⟩ := switch_ok_of_core h
+    have : k ≠ k' := by intro hk; subst hk; exact hne x rfl
+    simp [upd, this]
+  | _ =>
+    simp only [core] at h <;> (repeat' split at h) <;> simp at h <;> subst h <;> rfl
+
+theorem cur_runFrom {s s2 : St} {mid : List Ev} {k : Nat} (h : sys.runFrom s mid = some s2)
+    (hno : ∀ x, Ev.switch k x ∉ mid) : s2.cur k = s.cur k := by
+  induction mid generalizing s with
+  | nil => simp [Sys.runFrom] at h; subst h; rfl
+  | cons e es ih =>
+    simp only [Sys.runFrom] at h
+    cases hst : sys.step s e with
+    | none => simp [hst] at h
+    | some s1 =>
+      simp [hst] at h
+      have h1 := ih h (fun x hx => hno x (List.mem_cons_of_mem _ hx))
+      have h2 := cur_step (k := k) hst (fun x hx => hno x (by simp [hx]))
+      rw [h1, h2]
+
+/-- the events that name fiber g -/
+def mentions (g : Nat) : Ev → Bool
+  | .create _ x => x == g
+  | .rqpush _ _ x _ => x == g
+  | .rqpop _ _ (some x) => x == g
+  | .rqsteal _ _ (some x) => x == g
+  | .rState _ x _ _ => x == g
+  | .wState _ x _ _ => x == g
+  | .switch _ x => x == g
+  | .destroy _ x => x == g
+  | _ => false
+
+theorem ctx_step {s s' : St} {e : Ev} (hI : Inv s) (h : step s e = some s') (g : Nat)
+    (hm : mentions g e = false) (hc : ∀ k, k < 16 → s.cur k ≠ g) : s'.ctx g = s.ctx g := by
+  obtain ⟨hw, h⟩ := step_core h
+  cases e with
+  | switch k' x =>
+    obtain ⟨-, rfl⟩ := switch_ok_of_core h
+    simp [Ev.wf] at hw
+    simp [mentions] at hm
+    have := hc k' hw
+    simp [upd, Ne.symm hm, Ne.symm this]
+  | create k x =>
+    simp only [core] at h; split at h <;> simp at h; subst h
+    simp [mentions] at hm; simp [upd, Ne.symm hm]
+  | destroy k x =>
+    simp only [core] at h; split at h <;> simp at h; subst h
+    simp [mentions] at hm; simp [upd, Ne.symm hm]
+  | _ =>
+    simp only [core] at h <;> (repeat' split at h) <;> simp at h <;> subst h <;> rfl
+
+theorem dead_step {s s' : St} {e : Ev} {g : Nat} (hI : Inv s) (hd : s.ctx g = .dead)
+    (h : step s e = some s') : s'.ctx g = .dead ∧ mentions g e = false := by
+  have hI' := inv_step hI h
+  have hm : mentions g e = false := by
+    cases hm : mentions g e with
+    | false => rfl
+    | true =>
+      exfalso
+      obtain ⟨hw, hc⟩ := step_core h
+      have hE := eff_of_step h
+      cases e with
+      | create k x =>
+        simp [mentions] at hm; subst hm
+        simp only [Eff] at hE; simp [hE.1] at hd
+      | rqpush k q x fn =>
+        simp [mentions] at hm; subst hm
+        simp only [Eff] at hE
+        have hx : x ∈ s'.bag q := by rw [hE.2.2.2.1]; simp
+        have hQ := hI'.bagQ q x hx
+        have : s'.ctx x = s.ctx x := by
+          simp only [core] at hc
+          (repeat' split at hc) <;> simp at hc <;> subst hc <;> rfl
+        simp [Q, this, hd, Ctx.isRunning] at hQ
+      | rqpop k q r =>
+        cases r with
+        | none => simp [mentions] at hm
+        | some x =>
+          simp [mentions] at hm; subst hm
+          simp only [Eff] at hE
+          have hQ := hI.bagQ q x hE.2.2.1
+          simp [Q, hd, Ctx.isRunning] at hQ
+      | rqsteal k q r =>
+        cases r with
+        | none => simp [mentions] at hm
+        | some x =>
+          simp [mentions] at hm; subst hm
+          simp only [Eff] at hE
+          have hQ := hI.bagQ q x hE.2.2.1
+          simp [Q, hd, Ctx.isRunning] at hQ
+      | rState k x v fn =>
+        simp [mentions] at hm; subst hm
+        simp only [core] at hc; simp [hd] at hc
+      | wState k x v fn =>
+        simp [mentions] at hm; subst hm
+        simp only [core] at hc; simp [hd] at hc
+      | switch k x =>
+        simp [mentions] at hm; subst hm
+        simp [Ev.wf] at hw
+        have := switch_target hI hw (switch_ok_of_core hc).1
+        simp [hd] at this
+      | destroy k x =>
+        simp [mentions] at hm; subst hm
+        simp only [core] at hc; split at hc <;> simp at hc
+        next hg =>
+          have := hI.winC k (by simp [hg.2.2.2.2.2.2])
+          rw [← hg.1, hd] at this; simp at this
+      | spawn => simp [mentions] at hm
+      | tick => simp [mentions] at hm
+  refine ⟨?_, hm⟩
+  rw [ctx_step hI h g hm, hd]
+  intro k hk hcur
+  have := hI.live k hk
+  rw [hcur, hd] at this; simp at this
+
+theorem sumTo_ge {α : Type} (n : Nat) (f : Nat → α) (c : α → Nat) (j : Nat) (hj : j < n) :
+    c (f j) ≤ sumTo n f c := by
+  induction n with
+  | zero => omega
+  | succ n ih =>
+    rw [sumTo_succ]
+    by_cases h : j = n
+    · subst h; omega
+    · have := ih (by omega); omega
+
+/-- meaning of `places`: positive iff g is in some run queue or in some thread's hand -/
+theorem places_pos_iff {s : St} (hI : Inv s) (g : Nat) :
+    0 < places s g ↔ (∃ q, g ∈ s.bag q) ∨ (∃ k, (s.tpc k).fib = some g) := by
+  constructor
+  · intro h
+    simp only [places] at h
+    by_cases hb : 0 < bagCnt s.bag g
+    · obtain ⟨q, _, hq⟩ := sumTo_pos _ _ _ hb
+      exact Or.inl ⟨q, List.count_pos_iff.mp hq⟩
+    · obtain ⟨k, _, hk⟩ := sumTo_pos _ _ _ (show 0 < handCnt s.tpc g by omega)
+      simp only [hc] at hk
+      split at hk
+      · exact Or.inr ⟨k, by assumption⟩
+      · omega
+  · rintro (⟨q, hq⟩ | ⟨k, hk⟩)
+    · have h32 : q < 32 := by
+        by_cases h : q < 32
+        · exact h
+        · have := hI.rngQ q (by omega); simp [this] at hq
+      have := sumTo_ge NQ s.bag (fun l => l.count g) q h32
+      have hp : 0 < (s.bag q).count g := List.count_pos_iff.mpr hq
+      simp only [places, bagCnt]; omega
+    · have h16 : k < 16 := by
+        by_cases h : k < 16
+        · exact h
+        · have := hI.rngT k (by omega); simp [this, TPc.fib] at hk
+      have := sumTo_ge 16 s.tpc (hc g) k h16
+      simp only [hc, hk] at this
+      simp only [places, handCnt]; simp at this; omega
 end LibfiberVerif.Rt
